@@ -94,6 +94,150 @@ def code_pick(tis, path, l, r, xi):
     return f"{idx[0]},{idx[-1]},{len(idx) - 2}", g.calls
 
 
+def xi_grid(segs, n):
+    """draws at and around every cumulative boundary (dyadic, so float and rational comparisons agree)"""
+    xis = {Fraction(0), Fraction(1, 1 << 20), Fraction(1) - Fraction(1, 1 << 20)}
+    cum = 0
+    for s in segs:
+        cum += s[2]
+        b = Fraction(cum, n)
+        for d in (-1, 1):
+            x = Fraction(round(b * (1 << 20)) + d * 3, 1 << 20)
+            if 0 <= x < 1:
+                xis.add(x)
+        if b.denominator & (b.denominator - 1) == 0 and b < 1:
+            xis.add(b)
+    return sorted(xis)
+
+
+def spec_pick(segs, n, x):
+    cum = 0
+    for s in segs:
+        cum += s[2]
+        if Fraction(cum, n) >= x:
+            return f"{s[0]},{s[1]},{s[2]}"
+    return "none"
+
+
+def code_move_seed(tis, Path, System, intfs, cap, ops, xi, n_jumps=2):
+    """Drive the real `wire_fencing` up to the point where it starts MD: `tis.shoot` is replaced by a probe
+    that records the sub-ensemble interfaces and the segment it is asked to shoot from (by identity of the
+    old path's frames) and reports a failed jump, so that the move ends with "NSG" without an engine."""
+    path = mk(ops, Path, System)
+    ids = {id(s): k for k, s in enumerate(path.phasepoints)}
+    g = OneDraw(xi)
+    tis_set = {"maxlength": 1000, "n_jumps": n_jumps, "allowmaxlength": False}
+    if cap is not None:
+        tis_set["interface_cap"] = float(cap)
+    ens_set = {"interfaces": [float(x) for x in intfs], "tis_set": tis_set, "rgen": g, "ens_name": "001",
+               "start_cond": ("L",), "mc_move": "wf"}
+    calls = []
+
+    def probe(sub_ens, segment, engine, start_cond=("L",)):
+        idx = [ids.get(id(f), -1) for f in segment.phasepoints]
+        calls.append((list(sub_ens["interfaces"]), idx, tuple(start_cond)))
+        return False, segment, "BTL"
+
+    real = tis.shoot
+    tis.shoot = probe
+    try:
+        try:
+            ok, out, status = tis.wire_fencing(ens_set, path, None)
+        except Exception as e:  # noqa: BLE001
+            return {"err": err_kind(e)}
+    finally:
+        tis.shoot = real
+    return {"ok": ok, "status": status, "calls": calls, "draws": g.calls, "same_path": out is path}
+
+
+def move_seed_part(ctx, Path, System, tis, have_model):
+    """the clause "the sub-path seeding a wire-fencing MOVE is one of the valid sub-paths of [λ_i, cap)":
+    the real `wire_fencing` (not only the picker called with the right arguments)."""
+    rng = ctx.rng
+    cases = []
+    # (interfaces of the ensemble, caps); a cap of exactly 0 (falsy) and middle == left ([0+]) are included
+    sets = [((0, 2, 6), (None, 3, 4, 6)), ((0, 0, 5), (None, 2, 5)), ((-4, -2, 3), (None, 0, 1)), ((0, 1, 3), (None, 2))]
+    for intfs, caps in sets:
+        lv = tuple(range(intfs[0] - 1, intfs[2] + 2))
+        pool = [ops for ops in seqs(lv, 4 if ctx.quick else 5, 3)]
+        if ctx.quick and len(pool) > 1500:
+            pool = rng.sample(pool, 1500)
+        for _ in range(300 if ctx.quick else 5000):
+            L = rng.randint(5, 40)
+            x = rng.choice(lv)
+            ops = []
+            for _k in range(L):
+                ops.append(x)
+                x += rng.choice((-1, 1, 1, -1, 0, rng.randint(-4, 4)))
+                x = max(lv[0], min(lv[-1], x))
+            pool.append(tuple(ops))
+        for cap in caps:
+            for ops in pool:
+                capv = intfs[2] if cap is None else cap
+                n, segs = py_spec(ops, intfs[1], capv)
+                n_all, segs_all = py_spec(ops, intfs[1], intfs[2])
+                # keep every case where the cap matters, a sample of the others
+                matters = (n, segs) != (n_all, segs_all)
+                if not matters and len(segs) < 2 and rng.random() < 0.8:
+                    continue
+                xs = xi_grid(segs, n) if n else [Fraction(1, 2)]
+                if len(xs) > 6:
+                    xs = rng.sample(xs, 6)
+                for x in xs:
+                    cases.append((intfs, cap, ops, x))
+    lim = 25000 if ctx.quick else 400000
+    if len(cases) > lim:
+        cases = rng.sample(cases, lim)
+    code = [code_move_seed(tis, Path, System, intfs, cap, ops, float(x)) for (intfs, cap, ops, x) in cases]
+    if have_model:
+        out = ctx.driver([f"wfseed {intfs[1]} {intfs[2]} {'-' if cap is None else cap} {frac_token(x)} {lst(ops)}"
+                          for (intfs, cap, ops, x) in cases])
+    for k, (intfs, cap, ops, x) in enumerate(cases):
+        ctx.count(1, branch="move_seed")
+        capv = intfs[2] if cap is None else cap
+        n, segs = py_spec(ops, intfs[1], capv)
+        c = code[k]
+        rep = {"fn": "wire_fencing", "intfs": list(intfs), "cap": cap, "ops": list(ops), "xi": str(x)}
+        if "err" in c:
+            shown = c["err"]
+        elif not c["calls"]:
+            shown = "none"
+        else:
+            sub, idx, _sc = c["calls"][0]
+            contiguous = idx == list(range(idx[0], idx[0] + len(idx))) and idx[0] >= 0
+            shown = (f"{lst([int(v) if float(v) == int(v) else v for v in sub])} | "
+                     + (f"{idx[0]},{idx[-1]},{len(idx) - 2}" if contiguous else f"noncontiguous:{idx}"))
+        if have_model and shown != out[k]:
+            ctx.disagree(rep, shown, out[k])
+        want_seg = spec_pick(segs, n, x) if n else "none"
+        want = "none" if not n else f"{lst([intfs[1], intfs[1], capv])} | {want_seg}"
+        if n:
+            ctx.distinct(("move", intfs, cap, ops))
+        if shown != want:
+            got_seg = shown.split(" | ")[-1]
+            valid = {f"{s[0]},{s[1]},{s[2]}" for s in segs}
+            if "err" in c:
+                sig = "C10:move-raises"
+            elif shown == "none" or want == "none":
+                sig = "C10:move-usable-iff-weight-below-cap"
+            elif got_seg not in valid:
+                sig = "C10:move-seed-not-a-valid-subpath-below-cap"
+            elif got_seg != want_seg:
+                sig = "C10:move-seed-not-proportional"
+            else:
+                sig = "C10:move-sub-ensemble-interfaces"
+            ctx.fail(sig, f"wire_fencing seeds its jumps with {shown}; the valid sub-paths of [{intfs[1]}, {capv}) and "
+                          f"ξ={x} give {want}", dict(rep, code=shown, spec=want))
+        elif "err" not in c:
+            if c["draws"] != (1 if n else 0):
+                ctx.fail("C10:move-draw-count", f"{c['draws']} draws for the seed of one move", dict(rep, draws=c["draws"]))
+            if n and (c["status"] != "NSG" or c["ok"]):
+                ctx.fail("C10:move-without-usable-jump-not-NSG", f"status {c['status']} ok={c['ok']} although every jump failed",
+                         dict(rep, status=c["status"]))
+        if k % 5003 == 0:
+            ctx.sample(dict(rep, code=shown))
+
+
 def seqs(levels, maxlen, minlen=0):
     for L in range(minlen, maxlen + 1):
         yield from itertools.product(levels, repeat=L)
@@ -347,16 +491,35 @@ def run(ctx):
             if code_m[k] != want:
                 ctx.fail("C10:minus-vector-lambda-minus-one", f"[0-] weight {code_m[k]} with λ₋₁={lm1}, max={max(ops)}: expected {want}",
                          {"ops": ops, "lambda_minus_one": lm1, "first_interface": b})
-    ctx.assumptions += [
+    move_seed_part(ctx, Path, System, tis, have_model)
+    for a in [
         "order values are small integers (exact as floats); ξ values are dyadic so float `c/n >= ξ` equals the rational comparison",
         "IEEE rounding of sum_frames / n_frames is not modelled",
-    ]
+        "move level: `wire_fencing` is driven up to its first `shoot` call (replaced by a probe that fails every jump); "
+        "the jumps, the extender and the acceptance are C09's",
+    ]:
+        if a not in ctx.assumptions:
+            ctx.assumptions.append(a)
 
 
 def replay(ctx, obj):
     """re-run one recorded failing input on the current implementation"""
     Path, System, tis = _imports()
     r = obj.get("replay", {})
+    if r.get("fn") == "wire_fencing":
+        c = code_move_seed(tis, Path, System, r["intfs"], r["cap"], r["ops"], float(Fraction(r["xi"])))
+        capv = r["intfs"][2] if r["cap"] is None else r["cap"]
+        n, segs = py_spec(r["ops"], r["intfs"][1], capv)
+        want = "none" if not n else f"{lst([r['intfs'][1], r['intfs'][1], capv])} | {spec_pick(segs, n, Fraction(r['xi']))}"
+        if "err" in c:
+            shown = c["err"]
+        elif not c["calls"]:
+            shown = "none"
+        else:
+            sub, idx, _sc = c["calls"][0]
+            shown = f"{lst([int(v) if float(v) == int(v) else v for v in sub])} | {idx[0]},{idx[-1]},{len(idx) - 2}"
+        print("code:", shown, "spec:", want, "draws:", c.get("draws"), "status:", c.get("status"))
+        return 0 if shown == want and c.get("draws") == (1 if n else 0) else 1
     if "xi" in r:
         p = mk(r["ops"], Path, System)
         got = code_pick(tis, p, r["l"], r["r"], float(Fraction(r["xi"])))[0]
